@@ -8,6 +8,7 @@ import NomtModel.Driver.OvlMode
 import NomtModel.Driver.BitOpsMode
 import NomtModel.Driver.SeglogMode
 import NomtModel.Driver.TriePosMode
+import NomtModel.Driver.ShardsMode
 /-!
 `nomt_model`: the executable Lean model behind a line protocol.
 First argument selects the sub-protocol; stdin → stdout, one output line per input line.
@@ -35,4 +36,5 @@ def main (args : List String) : IO UInt32 := do
   | ["bitops"] => loop stdin stdout bitopsStep (); return 0
   | ["seglog"] => loop stdin stdout SegD.seglogStep {}; return 0
   | ["triepos"] => loop stdin stdout trieposStep none; return 0
+  | ["shards"] => loop stdin stdout shardsStep {}; return 0
   | _ => IO.eprintln "usage: nomt_model <core|...>"; return 2
